@@ -19,6 +19,7 @@ import (
 
 	"verif/harness/chain"
 	"verif/harness/core"
+	"verif/harness/evmasm"
 	"verif/harness/fix"
 )
 
@@ -196,6 +197,8 @@ func (r *votesRun) run() {
 		return
 	}
 	r.b = b
+	// the account that calls bridge-call targets carries the calls' value (a few units are enough)
+	fix.Fund(c, chain.ModuleAddr(crosschaintypes.ModuleName), sdk.NewCoin(fxtypes.DefaultDenom, sdkmath.NewInt(1000)))
 	for range b.Oracles {
 		r.om = append(r.om, &oracleModel{voted: map[int][]uint64{}, votedAt: map[uint64]int{}, variantOf: map[uint64]int{}})
 	}
@@ -212,6 +215,9 @@ func (r *votesRun) run() {
 	for step := 0; step < spec.Steps; step++ {
 		if c.BlockErr != nil {
 			break
+		}
+		if step%40 == 39 {
+			r.stepGenesisRoundTrip()
 		}
 		switch x := r.rng.IntN(100); {
 		case x < 58:
@@ -286,14 +292,30 @@ func (r *votesRun) buildEvents() {
 			e.Kind = "bridge_call"
 			rc := recv[i%2]
 			amt := sdkmath.NewInt(int64(1000 + i))
-			in := fix.BridgeCallIn{Sender: r.user.Hex(), Refund: rc.Hex(), To: rc.Hex(), TxOrigin: r.user.Hex(),
-				Tokens: []common.Address{tok}, Amounts: []sdkmath.Int{amt}}
+			to, toAcc := rc.Hex(), rc.Acc()
+			reentrantValue := sdkmath.ZeroInt()
+			if i%8 == 7 {
+				// the call's target is a contract that, when called back, asks the precompile to execute
+				// this very event again (its effects must not run a second time from inside the first run)
+				cc := crosschaintypes.GetAddress()
+				reenter, err := crosschaintypes.GetABI().Pack("executeClaim", b.Name, new(big.Int).SetUint64(n))
+				if err != nil {
+					panic(err)
+				}
+				if addr, err := r.c.Deploy(r.user, evmasm.ReenterWhilePoor(cc, reenter, 3_000_000, 3)); err == nil {
+					reentrantValue = sdkmath.OneInt()
+					to, toAcc = addr, sdk.AccAddress(addr.Bytes())
+					r.res.Count("reentrant_bridge_call_targets", 1)
+				}
+			}
+			in := fix.BridgeCallIn{Sender: r.user.Hex(), Refund: to, To: to, TxOrigin: r.user.Hex(),
+				Tokens: []common.Address{tok}, Amounts: []sdkmath.Int{amt}, Value: reentrantValue}
 			in2 := in
 			in2.Amounts = []sdkmath.Int{amt.AddRaw(1)}
 			in3 := in
 			in3.To = r.user.Hex()
 			e.Variants = []fix.ClaimFn{b.BridgeCallClaim(n, h, in), b.BridgeCallClaim(n, h, in2), b.BridgeCallClaim(n, h, in3)}
-			e.Receiver, e.Amount, e.ToERC20 = rc.Acc(), amt, true
+			e.Receiver, e.Amount, e.ToERC20 = toAcc, amt, true
 		default:
 			e.Kind = "send_to_fx"
 			rc := recv[i%2]
@@ -993,6 +1015,37 @@ func (r *votesRun) finalChecks() {
 		got := r.b.K.GetLastEventNonceByOracle(r.c.Ctx, o.Oracle.Acc())
 		if got != v[len(v)-1] {
 			r.res.Violate("C01/oracle-last-nonce-mismatch", "oracle %d: stored last event nonce %d, last accepted vote %d", i, got, v[len(v)-1])
+		}
+	}
+}
+
+// stepGenesisRoundTrip: export / wipe / import of the bridge module on a branch. What decides votes and
+// quorums must survive it: the recorded total power, the oracle records and indexes, the last observed
+// nonce, every oracle's last voted nonce, the attestations and the parked claims.
+func (r *votesRun) stepGenesisRoundTrip() {
+	ctx, diffs, err := r.b.GenesisRoundTrip()
+	r.res.Count("genesis_round_trips", 1)
+	if err != nil {
+		r.res.Violate("C02/genesis-round-trip-failed", "export / import of the %s module: %v", r.b.Name, err)
+		return
+	}
+	if r.checkC02 {
+		total := r.b.K.GetLastTotalPower(ctx)
+		online := sdkmath.ZeroInt()
+		for _, o := range r.b.K.GetAllOracles(ctx, true) {
+			online = online.Add(o.DelegateAmount.Quo(sdk.DefaultPowerReduction))
+		}
+		if total.LT(online) {
+			r.res.Violate("C02/total-power-below-online-power/after-genesis-import", "after export and import of the module's genesis the recorded total power is %s, the online oracles have %s", total, online)
+		}
+	}
+	for _, d := range diffs {
+		if len(d.Key) == 0 {
+			continue
+		}
+		r.res.Count(fmt.Sprintf("genesis_round_trip_diff_prefix_%02x", d.Key[0]), 1)
+		if r.verb {
+			fmt.Printf("  round-trip diff: %s\n", d.String())
 		}
 	}
 }
